@@ -1,4 +1,5 @@
 import Lemmas.RotationHist
+import Lemmas.RotationConc
 /-! # C12 — log rotation keeps the byte stream intact across size-bounded files
 
 Property theorems only.  The executable model is `Model/Rotation.lean` (namespace `Rot`): the directory of the log
@@ -241,6 +242,149 @@ theorem serialised_writers (cfg : Cfg) (s : St) (w₁ w₂ ops : List Op) (h : M
     | close => exact ⟨m, by simpa [List.filter, Op.isWrite] using hm, by simp [writesOf, he]⟩
     | reopen => exact ⟨m, by simpa [List.filter, Op.isWrite] using hm, by simp [writesOf, he]⟩
     | sync => exact ⟨m, by simpa [List.filter, Op.isWrite] using hm, by simp [writesOf, he]⟩
+
+/-! ## concurrent goroutines — the mutex bracket as a theorem
+
+`Model/Mutex.lean` is a generic small-step machine: every goroutine runs its own list of calls, every call is
+`Lock(); micro-steps; Unlock()`, the scheduler picks any enabled goroutine at every step (one that wants the held mutex
+is not enabled).  `Lemmas/RotationConc.lean` gives the micro-steps of `Write` (open block, size test, rotate's close,
+`os.Remove`, every single `os.Rename`, reset, and the write BYTE BY BYTE), `Close`, `Sync`, restart, and proves that
+they compute the sequential model.  What remains an assumption of the check is only that the Go code really brackets
+every method with the mutex (tie: the `stress` oracle, whose judge is the conclusion below, also under `-race`). -/
+
+/-- clause "concurrent writers never interleave bytes within one write": for EVERY schedule of any number of
+    goroutines calling Write/Close/Sync in any programs, at every moment at which the mutex is free, the state (the
+    directory included) is exactly that of the sequential model run on the calls in the order `ops` in which they
+    acquired the mutex; `ops` is an interleaving of WHOLE calls with every goroutine's calls in its own order (its
+    acquired calls followed by what it has still to do are its program); every finished `Write(b)` returned `len b`;
+    and therefore the files read back from the oldest backup to the current file are a suffix of the concatenation of
+    the whole records in that order — nothing torn, duplicated, lost or reordered inside it (all sequential theorems
+    above apply to `run cfg (fresh f) ops`). -/
+theorem concurrent_writes_never_interleave (cfg : Cfg) (f : Files) (progs : Nat → List Op) (sch : List Nat)
+    (c : Mutex.Config St Op PC Nat)
+    (he : Mutex.exec (sys cfg) true (Mutex.init (fresh f) progs) sch = some c) (hfree : c.holder = none) :
+    c.shared = run cfg (fresh f) (c.acq.map (·.2)) ∧
+    (∀ t, Mutex.opsOf t c.acq ++ (c.threads t).todo = progs t) ∧
+    (∀ t, (c.threads t).res = (Mutex.opsOf t c.acq).map resultOf) ∧
+    ∃ pre, retained cfg f ++ (writesOf (c.acq.map (·.2))).flatten = pre ++ retained cfg c.shared.files := by
+  obtain ⟨h1, _, hres, hord⟩ := Mutex.linearizable_fun (sys cfg) (runOp cfg) Track (runs_op cfg) (track_runOp cfg)
+    (fresh f) (track_fresh f) progs sch c he hfree
+  rw [seqExec_runOp] at h1
+  simp only [Prod.mk.injEq] at h1
+  obtain ⟨hlog, hsh⟩ := h1
+  refine ⟨hsh.symm, hord, ?_, ?_⟩
+  · intro t; rw [hres t, ← hlog, resOf_map]
+  · rw [← hsh]; exact run_suffix cfg (fresh f) _
+
+/-- the same when every goroutine has finished: the linearisation consists of ALL calls of all goroutines -/
+theorem concurrent_complete (cfg : Cfg) (f : Files) (progs : Nat → List Op) (sch : List Nat)
+    (c : Mutex.Config St Op PC Nat)
+    (he : Mutex.exec (sys cfg) true (Mutex.init (fresh f) progs) sch = some c) (hd : Mutex.AllDone c) :
+    c.shared = run cfg (fresh f) (c.acq.map (·.2)) ∧ (∀ t, Mutex.opsOf t c.acq = progs t) ∧
+    (∀ t, (c.threads t).res = (progs t).map resultOf) := by
+  have hfree : c.holder = none := by
+    have hi := Mutex.inv_reachable (sys cfg) (fresh f) progs sch c he
+    cases hh : c.holder with
+    | none => rfl
+    | some t => have := (hi.hold t).2 hh; rw [(hd t).2] at this; cases this
+  obtain ⟨h1, h2, h3, _⟩ := concurrent_writes_never_interleave cfg f progs sch c he hfree
+  have hall : ∀ t, Mutex.opsOf t c.acq = progs t := by
+    intro t; have := h2 t; rw [(hd t).1, List.append_nil] at this; exact this
+  exact ⟨h1, hall, fun t => by rw [h3 t, hall t]⟩
+
+/-- clauses "no rotated file exceeds MaxSize unless a single write is itself larger" and "at most MaxBackups backups"
+    for any number of concurrent writers: whenever the mutex is free, every file is at most `MaxSize` long, or is
+    exactly one record that some goroutine's program writes, or is an untouched pre-existing file; and no index above
+    `MaxBackups` was touched -/
+theorem concurrent_bounds (cfg : Cfg) (f : Files) (progs : Nat → List Op) (sch : List Nat)
+    (c : Mutex.Config St Op PC Nat)
+    (he : Mutex.exec (sys cfg) true (Mutex.init (fresh f) progs) sch = some c) (hfree : c.holder = none) :
+    (∀ i g, c.shared.files i = some g →
+        g.length ≤ cfg.maxSize ∨ (∃ t, Op.write g ∈ progs t) ∨ (∃ j, f j = some g)) ∧
+    (∀ j, cfg.maxBackups < j → c.shared.files j = f j) := by
+  obtain ⟨h1, h2, _, _⟩ := concurrent_writes_never_interleave cfg f progs sch c he hfree
+  constructor
+  · intro i g hg
+    rw [h1] at hg
+    rcases size_bound cfg (fresh f) _ (track_fresh f) i g hg with h | ⟨w, hw, e⟩ | h
+    · exact Or.inl h
+    · right; left
+      subst e
+      have hmem := writesOf_mem hw
+      simp only [List.mem_map] at hmem
+      obtain ⟨⟨t, op⟩, hx, hop⟩ := hmem
+      simp only at hop
+      subst hop
+      refine ⟨t, ?_⟩
+      rw [← h2 t]
+      exact List.mem_append_left _ (mem_opsOf hx)
+    · exact Or.inr (Or.inr h)
+  · intro j hj; rw [h1]; exact run_frame cfg (fresh f) _ j hj
+
+/-- clause "every Write returns in bounded time", scheduling half: under every schedule some goroutine can always take
+    a step until all have finished their programs (no dead-lock); together with `write_terminates` (the holder's own
+    steps are bounded: at most two passes, each a bounded chain) no call waits for ever under a fair scheduler -/
+theorem concurrent_progress (cfg : Cfg) (f : Files) (progs : Nat → List Op) (sch : List Nat)
+    (c : Mutex.Config St Op PC Nat)
+    (he : Mutex.exec (sys cfg) true (Mutex.init (fresh f) progs) sch = some c) :
+    (∃ t, (Mutex.step (sys cfg) true c t).isSome = true) ∨ Mutex.AllDone c :=
+  Mutex.progress (sys cfg) (fresh f) progs sch c he
+
+/-- two goroutines, MaxSize 2, one backup: goroutine 0 writes `[1,1]`, goroutine 1 writes `[2,2]`, goroutine 0 writes `[3]` -/
+def demoProgs : Nat → List Op
+  | 0 => [.write [1, 1], .write [3]]
+  | 1 => [.write [2, 2]]
+  | _ => []
+
+/-- non-vacuity: a schedule of the locked machine with two goroutines and rotations in between exists and ends with
+    all goroutines done; goroutine 1's whole record sits between goroutine 0's records (here: `[1,1]` was rotated out by
+    the second rotation, `[2,2]` is backup 1, `[3]` is current), every call returned its length -/
+example :
+    (Mutex.exec (sys { maxSize := 2, maxBackups := 1 }) true (Mutex.init (fresh fun _ => none) demoProgs)
+        (List.replicate 7 0 ++ List.replicate 12 1 ++ List.replicate 11 0)).map
+      (fun c => (c.shared.files 0, c.shared.files 1, c.holder, (c.threads 0).res, (c.threads 1).res,
+                 c.acq.map (·.1), (c.threads 0).todo.length, (c.threads 1).todo.length))
+    = some (some [3], some [2, 2], none, [2, 1], [2], [0, 1, 0], 0, 0) := by rfl
+
+/-- … and a goroutine that asks for the mutex while another one is inside a bracket is not enabled -/
+example :
+    (Mutex.exec (sys { maxSize := 2, maxBackups := 1 }) true (Mutex.init (fresh fun _ => none) demoProgs)
+        [0, 0, 1]).isNone = true := by rfl
+
+/-- WITHOUT the bracket (the same machine with `lock := false`) the clause is false, torn bytes: two goroutines write
+    `[1,1]` and `[2,2]` (MaxSize 10); under the schedule below the file reads `[1,2,1,2]`, which neither sequential
+    order produces.  The locked machine rejects this schedule. -/
+theorem unbracketed_writes_tear :
+    let cfg : Cfg := { maxSize := 10, maxBackups := 1 }
+    let progs : Nat → List Op := fun t => if t = 0 then [.write [1, 1]] else if t = 1 then [.write [2, 2]] else []
+    let sch := [0, 0, 0, 0, 1, 1, 1, 1, 0, 1, 0, 1, 0, 1]
+    ((Mutex.exec (sys cfg) false (Mutex.init (fresh fun _ => none) progs) sch).map
+        (fun c => (c.shared.files 0, (c.threads 0).res, (c.threads 1).res, (c.threads 0).todo.length,
+                   (c.threads 1).todo.length, (c.threads 0).cur.isSome, (c.threads 1).cur.isSome)))
+      = some (some [1, 2, 1, 2], [2], [2], 0, 0, false, false) ∧
+    (run cfg (fresh fun _ => none) [.write [1, 1], .write [2, 2]]).files 0 = some [1, 1, 2, 2] ∧
+    (run cfg (fresh fun _ => none) [.write [2, 2], .write [1, 1]]).files 0 = some [2, 2, 1, 1] ∧
+    (Mutex.exec (sys cfg) true (Mutex.init (fresh fun _ => none) progs) sch).isNone = true := by
+  intro cfg progs sch
+  exact ⟨by rfl, by rfl, by rfl, by rfl⟩
+
+/-- WITHOUT the bracket, size accounting: the file holds 2 bytes, MaxSize is 3, two goroutines write one byte each; both
+    pass the size test before either writes, and the file ends 4 bytes long although no record is longer than 1 — in
+    every sequential order the second write rotates and no file exceeds 3 bytes -/
+theorem unbracketed_size_accounting_wrong :
+    let cfg : Cfg := { maxSize := 3, maxBackups := 1 }
+    let f : Files := fun j => if j = 0 then some [9, 9] else none
+    let progs : Nat → List Op := fun t => if t = 0 then [.write [1]] else if t = 1 then [.write [2]] else []
+    let sch := [0, 0, 0, 1, 1, 1, 0, 1, 0, 1, 0, 1]
+    ((Mutex.exec (sys cfg) false (Mutex.init (fresh f) progs) sch).map
+        (fun c => (c.shared.files 0, c.shared.files 1, (c.threads 0).todo.length, (c.threads 1).todo.length,
+                   (c.threads 0).cur.isSome, (c.threads 1).cur.isSome)))
+      = some (some [9, 9, 1, 2], none, 0, 0, false, false) ∧
+    ((run cfg (fresh f) [.write [1], .write [2]]).files 0, (run cfg (fresh f) [.write [1], .write [2]]).files 1)
+      = (some [2], some [9, 9, 1]) ∧
+    (Mutex.exec (sys cfg) true (Mutex.init (fresh f) progs) sch).isNone = true := by
+  intro cfg f progs sch
+  exact ⟨by rfl, by rfl, by rfl⟩
 
 /-! ## New and its options -/
 
